@@ -111,3 +111,21 @@ func BoltIDsOfCopy(path string) ([]string, error) {
 	defer os.Remove(cp)
 	return BoltIDs(cp)
 }
+
+// BoltNestedBucketAtZero creates a history file whose updates bucket holds, under sequence number 0, a nested bucket:
+// a key that Bucket.Delete refuses (ErrIncompatibleValue), so that the first history trimming fails.
+func BoltNestedBucketAtZero(path string) error {
+	db, err := bolt.Open(path, 0o600, &bolt.Options{Timeout: time.Second})
+	if err != nil {
+		return err
+	}
+	defer db.Close()
+	return db.Update(func(tx *bolt.Tx) error {
+		b, err := tx.CreateBucketIfNotExists([]byte("updates"))
+		if err != nil {
+			return err
+		}
+		_, err = b.CreateBucket(append(make([]byte, 8), 'x'))
+		return err
+	})
+}
